@@ -200,7 +200,7 @@ def run_hashseed(case, viol, obs):
         env["PYTHONHASHSEED"] = hs
         try:
             p = subprocess.run([sys.executable, "-B", "-W", "ignore", "-m", "pyxabmon.twin"], input=js, text=True,
-                               capture_output=True, env=env, cwd=C.VERIF, timeout=300)
+                               capture_output=True, env=env, cwd=C.VERIF, timeout=300 * float(os.environ.get("PYXABMON_WALL_SCALE", "1") or 1))
         except subprocess.TimeoutExpired:
             return "watchdog"
         line = [l for l in p.stdout.splitlines() if l.startswith("DIGEST")]
@@ -246,7 +246,7 @@ def fresh_digest(case, hashseed):
     js = json.dumps({k: v for k, v in case.items() if not k.startswith("_")})
     try:
         p = subprocess.run([sys.executable, "-B", "-W", "ignore", "-m", "pyxabmon.twin"], input=js, text=True,
-                           capture_output=True, env=env, cwd=C.VERIF, timeout=300)
+                           capture_output=True, env=env, cwd=C.VERIF, timeout=300 * float(os.environ.get("PYXABMON_WALL_SCALE", "1") or 1))
     except subprocess.TimeoutExpired:
         return None
     line = [l for l in p.stdout.splitlines() if l.startswith("DIGEST")]
